@@ -573,7 +573,9 @@ func runBuf(c *ctx) {
 				c.count("busyburst")
 				qBefore := e.queues(s.up) // an update to BUFF releases nothing: the queues after it are the queues before it
 				e.d.k.mu.Lock()
-				e.d.k.delay = map[uint8]time.Duration{gtp5gnl.CMD_GET_FAR: 30 * time.Millisecond, gtp5gnl.CMD_ADD_FAR: 30 * time.Millisecond}
+				// (the loop stays busy for 60 ms, 240 ms or 400 ms: short and long against any patience a producer might have)
+				lat := time.Duration([]int{30, 120, 200}[r.intn(3)]) * time.Millisecond
+				e.d.k.delay = map[uint8]time.Duration{gtp5gnl.CMD_GET_FAR: lat, gtp5gnl.CMD_ADD_FAR: lat}
 				e.d.k.mu.Unlock()
 				done := make(chan message.Message, 1)
 				go func() {
